@@ -1,6 +1,7 @@
 package main
 
 import (
+	"bytes"
 	"fmt"
 	"strings"
 
@@ -162,6 +163,10 @@ func runPhyEnc(c *ctx) error {
 	if err != nil {
 		return err
 	}
+	// the previous encoded frame as returned and a copy of it taken at once: a frame handed to the
+	// caller (the encoder hands it on to the gateway) must not change when the next frame is encoded
+	var prevFrame, prevCopy []byte
+	var prevCase interface{}
 	for i, k := range cases {
 		c.res.Eval()
 		impl := "panic"
@@ -187,6 +192,12 @@ func runPhyEnc(c *ctx) error {
 				return
 			}
 			impl = "ok " + hx.H(b)
+			if prevFrame != nil && !bytes.Equal(prevFrame, prevCopy) {
+				c.res.Add(hx.Finding{Kind: "propfail", Engine: "phyenc", Signature: "encoded-frame-changed-by-next-encoding", Case: []interface{}{prevCase, k},
+					Impl: hx.H(prevFrame), Spec: hx.H(prevCopy),
+					Note: "C06/C12: the octets of a frame returned by the encoder changed when the next frame was encoded (the result aliases a shared buffer): a frame waiting for the gateway is overwritten by the next device's frame"})
+			}
+			prevFrame, prevCopy, prevCase = b, append([]byte{}, b...), k
 		}()
 		a := ans[i]
 		model, spec := a, "na"
